@@ -54,26 +54,40 @@ def function_tree(fn):
 
 
 def cpu_expression(fn):
-    """the value appended for one core in cpu_statistics, with the local assignments inlined"""
+    """the value appended for one core in cpu_statistics, local assignments inlined whatever their names;
+    returns (term, guard term or None, [latest work, latest idle, ref work, ref idle] names, text)"""
     tree = function_tree(fn)
     loop = next(n for n in ast.walk(tree) if isinstance(n, ast.For))
+    target = loop.target
+    if not (isinstance(target, ast.Tuple) and len(target.elts) == 2
+            and all(isinstance(t, ast.Tuple) and len(t.elts) == 2 and all(isinstance(x, ast.Name) for x in t.elts)
+                    for t in target.elts)):
+        raise NotImplementedError('cpu_statistics: loop target is not ((work, idle), (work, idle))')
+    names = [x.id for t in target.elts for x in t.elts]
     env_nodes = {}
     append = None
-    for stmt in loop.body:
+    for stmt in ast.walk(loop):
         if isinstance(stmt, ast.Assign) and isinstance(stmt.targets[0], ast.Name):
             env_nodes[stmt.targets[0].id] = stmt.value
-        elif isinstance(stmt, ast.Expr) and isinstance(stmt.value, ast.Call):
-            append = stmt.value.args[0]
+        elif isinstance(stmt, ast.Call) and isinstance(stmt.func, ast.Attribute) and stmt.func.attr == 'append':
+            append = stmt.args[0]
     if append is None:
         raise NotImplementedError('cpu_statistics: append not found')
     if isinstance(append, ast.IfExp):
         guard, value = append.test, append.body
     else:
         guard, value = None, append
-    tr = Translator()
-    for name, node in env_nodes.items():
-        tr.env[name] = tr.visit(node)
-    return tr.visit(value), (tr.env.get(guard.id) if isinstance(guard, ast.Name) else None), tr.free, ast.unparse(value)
+    tr = LazyTranslator(env_nodes)
+    term = tr.visit(value)
+    gterm = None
+    if guard is not None:
+        if not isinstance(guard, ast.Name):
+            raise NotImplementedError('cpu_statistics: guard is not a plain name')
+        gterm = tr.visit(guard)
+    unknown = [n for n in tr.free if n not in names]
+    if unknown:
+        raise NotImplementedError(f'cpu_statistics: free variables {unknown}')
+    return term, gterm, names, ast.unparse(value)
 
 
 def io_expression(fn):
